@@ -93,8 +93,15 @@ func zzH_C05_repr() {
 	cr := util.RunesToChars(rs)
 	zzv.Assert("bytes-form", cb.IsBytes() && !cr.IsBytes())
 	pat := zzPattern(m, zzv.CfgInt("pk"), cs, norm)
-	r1, p1 := zzAlgoFn(kind)(cs, norm, fwd, &cb, pat, withPos, nil)
-	r2, p2 := zzAlgoFn(kind)(cs, norm, fwd, &cr, pat, withPos, nil)
+	// optionally with a (small, zeroed) scratch slab, as the matcher workers have one: whether the
+	// line is too long for the slab must not depend on how the text is held
+	var s1, s2 *util.Slab
+	if c16 := zzv.CfgInt("c16"); c16 > 0 {
+		s1 = util.MakeSlab(c16, zzv.CfgInt("c32"))
+		s2 = util.MakeSlab(c16, zzv.CfgInt("c32"))
+	}
+	r1, p1 := zzAlgoFn(kind)(cs, norm, fwd, &cb, pat, withPos, s1)
+	r2, p2 := zzAlgoFn(kind)(cs, norm, fwd, &cr, pat, withPos, s2)
 	zzv.Reach("called")
 	zzObserveResult(r1, p1)
 	zzObserveResult(r2, p2)
